@@ -2,7 +2,7 @@
    Specification side: [spec_map] (name -> option status, a plain map replayed over the
    history), [svc_hist] (the statuses a service had from a subscription until it was cleared),
    [reports] (what a stream reported).  Everything is for ALL histories (lists of operations). *)
-From Coq Require Import List NArith Bool Arith Lia.
+From Coq Require Import List NArith Bool Arith Lia Permutation Sorted.
 From Verif Require Import Lib.Obs Model.Health.
 Import ListNotations.
 Open Scope N_scope.
@@ -947,22 +947,1056 @@ Proof.
   - rewrite pstep_cl, C. reflexivity.
 Qed.
 
-(* ------------------------------------------------------------------ linearizability observable *)
-(* what [obs_linearizable] (interleaving tier of the harness) decides: the observation equals the
-   model's outcome on one of the candidate SEQUENTIAL histories pre ++ a :: post *)
-Theorem obs_linearizable_sound : forall cands t,
-  obs_linearizable cands t = Nn 1 -> exists c, In c cands /\ tr_eqb (lin_obs c) t = true.
+(* ================================================================== concurrent executions *)
+(* [locked_act] with the lookup put back is [step] *)
+Lemma step_locked_act s o :
+  is_locked o = true -> locked_act s o (lookup (op_name o) (svcs s)) = step s o.
+Proof. destruct o; cbn [is_locked]; intros H; try discriminate; reflexivity. Qed.
+Lemma apply_cop_locked s sm i o :
+  is_locked o = true ->
+  apply_cop s sm i o = (fst (step s o), bind_slot i (snd (step s o)) sm, snd (step s o)).
+Proof. destruct o; cbn [is_locked]; intros H; try discriminate; reflexivity. Qed.
+Lemma locked_act_svcs_read s o r :
+  is_write o = false -> svcs (fst (locked_act s o r)) = svcs s.
 Proof.
-  intros cands t H. unfold obs_linearizable in H.
-  destruct (existsb (fun c => tr_eqb (lin_obs c) t) cands) eqn:E; [|discriminate].
-  apply existsb_exists in E. exact E.
+  destruct o as [n v|n|n|n|w]; cbn [is_write locked_act]; intros H; try discriminate.
+  - destruct r; reflexivity.
+  - destruct r; reflexivity.
+  - cbn [step]. destruct (nth_error (watchers s) w); reflexivity.
 Qed.
-Theorem lin_obs_is_sequential : forall pre a post,
-  exists xa tpost,
-    trace init (pre ++ a :: post) = trace init pre ++ (a, xa) :: tpost /\
-    lin_obs (pre, a, post) =
-      Nd (map (fun x => lin_out_tr (snd x)) (trace init pre)
-          ++ map (fun x => lin_out_tr (snd x)) tpost ++ [lin_out_tr xa]).
+Lemma apply_cop_next_svcs s sm i k : svcs (fst (fst (apply_cop s sm i (Next k)))) = svcs s.
 Proof.
-  intros pre a post. eexists. eexists. split; [rewrite trace_app; reflexivity | reflexivity].
+  cbn [apply_cop]. destruct (slot_lookup k sm) as [w|]; [|reflexivity]. cbn [fst step].
+  destruct (nth_error (watchers s) w); reflexivity.
+Qed.
+
+(* ---- the ghost linearization: every call that has taken effect, in the order of the effects,
+   with the time of its invocation and of its effect ---- *)
+Definition entry : Type := (nat * nat * op * out)%type.
+Definition en_inv (x : entry) : nat := fst (fst (fst x)).
+Definition en_eff (x : entry) : nat := snd (fst (fst x)).
+Definition en_op (x : entry) : op := snd (fst x).
+Definition en_out (x : entry) : out := snd x.
+
+Fixpoint lin_run (s : state) (sm : slots) (L : list entry) : state * slots :=
+  match L with
+  | [] => (s, sm)
+  | x :: L' => let r := apply_cop s sm (en_inv x) (en_op x) in lin_run (fst (fst r)) (snd (fst r)) L'
+  end.
+Fixpoint lin_outs (s : state) (sm : slots) (L : list entry) : Prop :=
+  match L with
+  | [] => True
+  | x :: L' => let r := apply_cop s sm (en_inv x) (en_op x) in
+               snd r = en_out x /\ lin_outs (fst (fst r)) (snd (fst r)) L'
+  end.
+Lemma lin_run_app s sm a b :
+  lin_run s sm (a ++ b) = lin_run (fst (lin_run s sm a)) (snd (lin_run s sm a)) b.
+Proof. revert s sm; induction a as [|x a IH]; intros s sm; cbn [app lin_run]; [reflexivity|]. apply IH. Qed.
+Lemma lin_outs_app s sm a b :
+  lin_outs s sm (a ++ b) <-> lin_outs s sm a /\ lin_outs (fst (lin_run s sm a)) (snd (lin_run s sm a)) b.
+Proof.
+  revert s sm; induction a as [|x a IH]; intros s sm; cbn [app lin_run lin_outs]; [tauto|].
+  rewrite IH. tauto.
+Qed.
+
+Definition th_inv (p : phase) : option nat :=
+  match p with PIdle => None | PWait i _ | PHeld i _ | PLooked i _ _ | PDone i _ _ => Some i end.
+
+Record CI (c : cfg) (L : list entry) : Prop := mkCI {
+  ci_state : lin_run init [] L = (g_st c, g_slots c);
+  ci_outs : lin_outs init [] L;
+  ci_sorted : StronglySorted lt (map en_eff L);
+  ci_times : forall x, In x L -> (en_inv x < en_eff x)%nat /\ (en_eff x < g_clock c)%nat;
+  ci_hist : forall h, In h (g_hist c) ->
+      (co_ret h < g_clock c)%nat /\ exists e, In (co_inv h, e, co_op h, co_out h) L /\ (e < co_ret h)%nat;
+  ci_hist_nodup : NoDup (map co_inv (g_hist c));
+  ci_nodup : NoDup (map en_inv L);
+  ci_acct : forall x, In x L ->
+      (exists j, In (mkCop (en_inv x) j (en_op x) (en_out x)) (g_hist c) /\ (en_eff x < j)%nat) \/
+      (exists t, g_th c t = PDone (en_inv x) (en_op x) (en_out x));
+  ci_th : forall t, match g_th c t with
+                    | PHeld _ o => is_locked o = true
+                    | PLooked _ o r => is_locked o = true /\ r = lookup (op_name o) (svcs (g_st c))
+                    | PDone i o x => exists e, In (i, e, o, x) L
+                    | _ => True
+                    end;
+  ci_th_clock : forall t i, th_inv (g_th c t) = Some i -> (i < g_clock c)%nat;
+  ci_th_hist : forall t i, th_inv (g_th c t) = Some i -> ~ In i (map co_inv (g_hist c));
+  ci_th_distinct : forall t1 t2 i, t1 <> t2 -> th_inv (g_th c t1) = Some i -> th_inv (g_th c t2) <> Some i;
+  ci_excl : forall t1 t2, t1 <> t2 -> holds (g_th c t1) = Some true -> holds (g_th c t2) = None
+}.
+
+Lemma CI_init : CI cinit [].
+Proof.
+  constructor; cbn; try (intros; contradiction); try (intros; discriminate); auto; constructor.
+Qed.
+
+Lemma set_th_same th t p : set_th th t p t = p.
+Proof. unfold set_th. now rewrite Nat.eqb_refl. Qed.
+Lemma set_th_other th t p t' : t' <> t -> set_th th t p t' = th t'.
+Proof. unfold set_th. intros H. destruct (Nat.eqb_spec t' t); [contradiction|reflexivity]. Qed.
+
+Lemma StronglySorted_snoc l x :
+  StronglySorted lt l -> (forall y, In y l -> (y < x)%nat) -> StronglySorted lt (l ++ [x]).
+Proof.
+  induction 1 as [|a l Hs IH Ha]; intros Hx; cbn [app].
+  - constructor; constructor.
+  - constructor.
+    + apply IH. intros y Hy. apply Hx. now right.
+    + apply Forall_app. split; [exact Ha|]. constructor; [|constructor]. apply Hx. now left.
+Qed.
+
+Lemma NoDup_app_snoc {A} (l : list A) x : NoDup l -> ~ In x l -> NoDup (l ++ [x]).
+Proof.
+  induction 1 as [|a l Ha Hl IH]; intros Hx; cbn [app].
+  - constructor; [intros []|constructor].
+  - constructor.
+    + intros Hi. apply in_app_or in Hi. destruct Hi as [Hi|[<-|[]]]; [contradiction|]. apply Hx. now left.
+    + apply IH. intros Hi. apply Hx. now right.
+Qed.
+
+(* the invocation time of a call that has not taken effect is not in the linearization *)
+Lemma CI_fresh c L t i :
+  CI c L -> th_inv (g_th c t) = Some i -> (forall o x, g_th c t <> PDone i o x) ->
+  ~ In i (map en_inv L).
+Proof.
+  intros H Ht Hn Hi. apply in_map_iff in Hi. destruct Hi as (x & Ex & Hx).
+  destruct (ci_acct _ _ H x Hx) as [(j & Hj & _)|(t' & Ht')].
+  - apply (ci_th_hist _ _ H t i Ht). apply in_map_iff. exists (mkCop (en_inv x) j (en_op x) (en_out x)).
+    split; [exact Ex|exact Hj].
+  - destruct (Nat.eq_dec t' t) as [->|Hne].
+    + rewrite Ex in Ht'. exact (Hn _ _ Ht').
+    + apply (ci_th_distinct _ _ H t' t i Hne); [rewrite Ht'; cbn; now f_equal|exact Ht].
+Qed.
+
+(* a step that only moves one task between phases that have not taken effect *)
+Lemma CI_phase c L t p :
+  CI c L ->
+  th_inv p = th_inv (g_th c t) -> th_inv p <> None ->
+  (forall i o x, g_th c t <> PDone i o x) ->
+  match p with
+  | PHeld _ o => is_locked o = true
+  | PLooked _ o r => is_locked o = true /\ r = lookup (op_name o) (svcs (g_st c))
+  | PDone _ _ _ => False
+  | _ => True
+  end ->
+  (forall t2, t2 <> t -> (holds p = Some true -> holds (g_th c t2) = None) /\
+                         (holds (g_th c t2) = Some true -> holds p = None)) ->
+  CI (mkCfg (g_st c) (g_slots c) (set_th (g_th c) t p) (S (g_clock c)) (g_hist c)) L.
+Proof.
+  intros H Ep Np Nd Hp Hx. constructor; cbn [g_st g_slots g_th g_clock g_hist].
+  - apply (ci_state _ _ H).
+  - apply (ci_outs _ _ H).
+  - apply (ci_sorted _ _ H).
+  - intros x Hx'. destruct (ci_times _ _ H x Hx'). lia.
+  - intros h Hh. destruct (ci_hist _ _ H h Hh) as [A B]. split; [lia|exact B].
+  - apply (ci_hist_nodup _ _ H).
+  - apply (ci_nodup _ _ H).
+  - intros x Hx'. destruct (ci_acct _ _ H x Hx') as [A|(t' & Ht')]; [now left|right].
+    exists t'. rewrite set_th_other; [exact Ht'|]. intros ->. exact (Nd _ _ _ Ht').
+  - intros t'. destruct (Nat.eq_dec t' t) as [->|Hne].
+    + rewrite set_th_same. destruct p; auto. contradiction.
+    + rewrite set_th_other by exact Hne. apply (ci_th _ _ H t').
+  - intros t' i. destruct (Nat.eq_dec t' t) as [->|Hne].
+    + rewrite set_th_same, Ep. intros Hi. pose proof (ci_th_clock _ _ H t i Hi). lia.
+    + rewrite set_th_other by exact Hne. intros Hi. pose proof (ci_th_clock _ _ H t' i Hi). lia.
+  - intros t' i. destruct (Nat.eq_dec t' t) as [->|Hne].
+    + rewrite set_th_same, Ep. apply (ci_th_hist _ _ H).
+    + rewrite set_th_other by exact Hne. apply (ci_th_hist _ _ H).
+  - intros t1 t2 i Hne.
+    destruct (Nat.eq_dec t1 t) as [->|N1]; destruct (Nat.eq_dec t2 t) as [->|N2]; try congruence;
+      rewrite ?set_th_same, ?set_th_other, ?Ep by assumption; now apply (ci_th_distinct _ _ H).
+  - intros t1 t2 Hne.
+    destruct (Nat.eq_dec t1 t) as [->|N1]; destruct (Nat.eq_dec t2 t) as [->|N2]; try congruence;
+      rewrite ?set_th_same, ?set_th_other by assumption.
+    + apply (Hx t2 N2).
+    + apply (Hx t1 N1).
+    + now apply (ci_excl _ _ H).
+Qed.
+
+(* a step in which task t takes effect: the call is appended to the linearization *)
+Lemma CI_effect c L t i o x s' sm' :
+  CI c L -> th_inv (g_th c t) = Some i -> (forall o' x', g_th c t <> PDone i o' x') ->
+  apply_cop (g_st c) (g_slots c) i o = (s', sm', x) ->
+  (forall t2 r2 i2 o2, t2 <> t -> g_th c t2 = PLooked i2 o2 r2 -> svcs s' = svcs (g_st c)) ->
+  CI (mkCfg s' sm' (set_th (g_th c) t (PDone i o x)) (S (g_clock c)) (g_hist c))
+     (L ++ [(i, g_clock c, o, x)]).
+Proof.
+  intros H Ht Nd Ea Hsv.
+  pose proof (ci_th_clock _ _ H t i Ht) as Hic.
+  pose proof (CI_fresh _ _ _ _ H Ht Nd) as Hfresh.
+  constructor; cbn [g_st g_slots g_th g_clock g_hist].
+  - rewrite lin_run_app, (ci_state _ _ H). cbn [fst snd lin_run en_inv en_op]. now rewrite Ea.
+  - apply lin_outs_app. split; [apply (ci_outs _ _ H)|]. rewrite (ci_state _ _ H).
+    cbn [fst snd lin_outs en_inv en_op en_out]. rewrite Ea. cbn. auto.
+  - rewrite map_app. apply StronglySorted_snoc; [apply (ci_sorted _ _ H)|].
+    intros y Hy. apply in_map_iff in Hy. destruct Hy as (z & <- & Hz).
+    destruct (ci_times _ _ H z Hz). cbn. assumption.
+  - intros z Hz. apply in_app_or in Hz. destruct Hz as [Hz|[<-|[]]].
+    + destruct (ci_times _ _ H z Hz). lia.
+    + cbn. lia.
+  - intros h Hh. destruct (ci_hist _ _ H h Hh) as [A (e & B & C)]. split; [lia|].
+    exists e. split; [apply in_or_app; now left|exact C].
+  - apply (ci_hist_nodup _ _ H).
+  - rewrite map_app. cbn [map]. apply NoDup_app_snoc; [apply (ci_nodup _ _ H)|exact Hfresh].
+  - intros z Hz. apply in_app_or in Hz. destruct Hz as [Hz|[<-|[]]].
+    + destruct (ci_acct _ _ H z Hz) as [A|(t' & Ht')]; [now left|right].
+      exists t'. rewrite set_th_other; [exact Ht'|]. intros ->.
+      apply Hfresh. apply in_map_iff. exists z. split; [|exact Hz].
+      rewrite Ht' in Ht. cbn in Ht. congruence.
+    + right. exists t. now rewrite set_th_same.
+  - intros t'. destruct (Nat.eq_dec t' t) as [->|Hne].
+    + rewrite set_th_same. exists (g_clock c). apply in_or_app. right. now left.
+    + rewrite set_th_other by exact Hne. pose proof (ci_th _ _ H t') as P.
+      destruct (g_th c t') as [|i2 o2|i2 o2|i2 o2 r2|i2 o2 x2] eqn:E; auto.
+      * destruct P as [P1 P2]. split; [exact P1|]. rewrite (Hsv t' r2 i2 o2 Hne E). exact P2.
+      * destruct P as [e P]. exists e. apply in_or_app. now left.
+  - intros t' i'. destruct (Nat.eq_dec t' t) as [->|Hne].
+    + rewrite set_th_same. cbn. intros [= <-]. lia.
+    + rewrite set_th_other by exact Hne. intros Hi. pose proof (ci_th_clock _ _ H t' i' Hi). lia.
+  - intros t' i'. destruct (Nat.eq_dec t' t) as [->|Hne].
+    + rewrite set_th_same. cbn. intros [= <-]. now apply (ci_th_hist _ _ H t).
+    + rewrite set_th_other by exact Hne. apply (ci_th_hist _ _ H).
+  - intros t1 t2 i' Hne.
+    destruct (Nat.eq_dec t1 t) as [->|N1]; destruct (Nat.eq_dec t2 t) as [->|N2]; try congruence;
+      rewrite ?set_th_same, ?set_th_other by assumption.
+    + cbn. intros [= <-]. now apply (ci_th_distinct _ _ H t t2).
+    + cbn. intros A [= <-]. exact (ci_th_distinct _ _ H t1 t i N1 A Ht).
+    + now apply (ci_th_distinct _ _ H).
+  - intros t1 t2 Hne.
+    destruct (Nat.eq_dec t1 t) as [->|N1]; destruct (Nat.eq_dec t2 t) as [->|N2]; try congruence;
+      rewrite ?set_th_same, ?set_th_other by assumption; cbn [holds]; try discriminate; auto.
+    now apply (ci_excl _ _ H).
+Qed.
+
+Lemma CI_step c L ev c' : CI c L -> cstep c ev c' -> exists L', CI c' L'.
+Proof.
+  intros H St. destruct St as [c t o Ht|c t i o Ht Lo Ma|c t i o Ht|c t i o r Ht|c t i k Ht|c t i o x Ht].
+  - (* invocation *)
+    exists L. constructor; cbn [g_st g_slots g_th g_clock g_hist].
+    + apply (ci_state _ _ H).
+    + apply (ci_outs _ _ H).
+    + apply (ci_sorted _ _ H).
+    + intros z Hz. destruct (ci_times _ _ H z Hz). lia.
+    + intros h Hh. destruct (ci_hist _ _ H h Hh) as [A B]. split; [lia|exact B].
+    + apply (ci_hist_nodup _ _ H).
+    + apply (ci_nodup _ _ H).
+    + intros z Hz. destruct (ci_acct _ _ H z Hz) as [A|(t' & Ht')]; [now left|right].
+      exists t'. rewrite set_th_other; [exact Ht'|]. intros ->. congruence.
+    + intros t'. destruct (Nat.eq_dec t' t) as [->|Hne].
+      * now rewrite set_th_same.
+      * rewrite set_th_other by exact Hne. apply (ci_th _ _ H t').
+    + intros t' i'. destruct (Nat.eq_dec t' t) as [->|Hne].
+      * rewrite set_th_same. cbn. intros [= <-]. lia.
+      * rewrite set_th_other by exact Hne. intros Hi. pose proof (ci_th_clock _ _ H t' i' Hi). lia.
+    + intros t' i'. destruct (Nat.eq_dec t' t) as [->|Hne].
+      * rewrite set_th_same. cbn. intros [= <-] Hi. apply in_map_iff in Hi. destruct Hi as (h & Eh & Hh).
+        destruct (ci_hist _ _ H h Hh) as [A (e & B & C)].
+        destruct (ci_times _ _ H _ B) as [D E]. cbn in D, E. lia.
+      * rewrite set_th_other by exact Hne. apply (ci_th_hist _ _ H).
+    + intros t1 t2 i' Hne.
+      destruct (Nat.eq_dec t1 t) as [->|N1]; destruct (Nat.eq_dec t2 t) as [->|N2]; try congruence;
+        rewrite ?set_th_same, ?set_th_other by assumption.
+      * cbn. intros [= <-] A. pose proof (ci_th_clock _ _ H t2 _ A). lia.
+      * cbn. intros A [= <-]. pose proof (ci_th_clock _ _ H t1 _ A). lia.
+      * now apply (ci_th_distinct _ _ H).
+    + intros t1 t2 Hne.
+      destruct (Nat.eq_dec t1 t) as [->|N1]; destruct (Nat.eq_dec t2 t) as [->|N2]; try congruence;
+        rewrite ?set_th_same, ?set_th_other by assumption; cbn [holds]; try discriminate; auto.
+      now apply (ci_excl _ _ H).
+  - (* the guard is acquired *)
+    exists L. apply CI_phase; auto.
+    + now rewrite Ht.
+    + discriminate.
+    + intros; congruence.
+    + intros t2 N2. specialize (Ma t2). cbn [holds]. split.
+      * intros [= W]. destruct (holds (g_th c t2)) as [w|]; [|reflexivity].
+        destruct Ma as [_ Ma]. congruence.
+      * intros E. rewrite E in Ma. destruct Ma; discriminate.
+  - (* the lookup under the guard *)
+    exists L. pose proof (ci_th _ _ H t) as P. rewrite Ht in P. apply CI_phase; auto.
+    + now rewrite Ht.
+    + discriminate.
+    + intros; congruence.
+    + intros t2 N2. cbn [holds]. split.
+      * intros E. apply (ci_excl _ _ H t t2); [congruence|]. now rewrite Ht.
+      * intros E. pose proof (ci_excl _ _ H t2 t N2 E) as X. now rewrite Ht in X.
+  - (* the effect under the guard *)
+    pose proof (ci_th _ _ H t) as P. rewrite Ht in P. destruct P as [Lo ->].
+    rewrite (step_locked_act _ _ Lo).
+    exists (L ++ [(i, g_clock c, o, snd (step (g_st c) o))]).
+    apply CI_effect; auto.
+    + now rewrite Ht.
+    + intros; congruence.
+    + now apply apply_cop_locked.
+    + intros t2 r2 i2 o2 N2 E2.
+      destruct (is_write o) eqn:W.
+      * pose proof (ci_excl _ _ H t t2) as X. rewrite Ht, E2 in X. cbn [holds] in X.
+        rewrite W in X. specialize (X (not_eq_sym N2) eq_refl). discriminate.
+      * rewrite <- (step_locked_act _ _ Lo). now apply locked_act_svcs_read.
+  - (* a poll of a response stream *)
+    exists (L ++ [(i, g_clock c, Next k, snd (apply_cop (g_st c) (g_slots c) i (Next k)))]).
+    assert (Es : snd (fst (apply_cop (g_st c) (g_slots c) i (Next k))) = g_slots c).
+    { cbn [apply_cop]. destruct (slot_lookup k (g_slots c)); reflexivity. }
+    rewrite <- Es at 2. apply CI_effect; auto.
+    + now rewrite Ht.
+    + intros; congruence.
+    + now destruct (apply_cop (g_st c) (g_slots c) i (Next k)) as [[? ?] ?].
+    + intros. apply apply_cop_next_svcs.
+  - (* the call returns *)
+    exists L. pose proof (ci_th _ _ H t) as P. rewrite Ht in P. destruct P as [e He].
+    destruct (ci_times _ _ H _ He) as [T1 T2]. cbn in T1, T2.
+    constructor; cbn [g_st g_slots g_th g_clock g_hist].
+    + apply (ci_state _ _ H).
+    + apply (ci_outs _ _ H).
+    + apply (ci_sorted _ _ H).
+    + intros z Hz. destruct (ci_times _ _ H z Hz). lia.
+    + intros h Hh. apply in_app_or in Hh. destruct Hh as [Hh|[<-|[]]].
+      * destruct (ci_hist _ _ H h Hh) as [A B]. split; [lia|exact B].
+      * cbn. split; [lia|]. exists e. auto.
+    + rewrite map_app. cbn [map co_inv]. 
+      apply NoDup_app_snoc; [apply (ci_hist_nodup _ _ H)|].
+      apply (ci_th_hist _ _ H t). now rewrite Ht.
+    + apply (ci_nodup _ _ H).
+    + intros z Hz. destruct (ci_acct _ _ H z Hz) as [(j & A & B)|(t' & Ht')].
+      * left. exists j. split; [apply in_or_app; now left|exact B].
+      * destruct (Nat.eq_dec t' t) as [->|Hne].
+        -- left. exists (g_clock c). split; [|apply (ci_times _ _ H z Hz)]. apply in_or_app. right. left.
+           rewrite Ht in Ht'. now injection Ht' as -> -> ->.
+        -- right. exists t'. now rewrite set_th_other.
+    + intros t'. destruct (Nat.eq_dec t' t) as [->|Hne].
+      * now rewrite set_th_same.
+      * rewrite set_th_other by exact Hne. apply (ci_th _ _ H t').
+    + intros t' i'. destruct (Nat.eq_dec t' t) as [->|Hne].
+      * rewrite set_th_same. discriminate.
+      * rewrite set_th_other by exact Hne. intros Hi. pose proof (ci_th_clock _ _ H t' i' Hi). lia.
+    + intros t' i'. destruct (Nat.eq_dec t' t) as [->|Hne].
+      * rewrite set_th_same. discriminate.
+      * rewrite set_th_other by exact Hne. intros Hi Hin. rewrite map_app in Hin.
+        apply in_app_or in Hin. destruct Hin as [Hin|[Hin|[]]].
+        -- exact (ci_th_hist _ _ H t' i' Hi Hin).
+        -- cbn in Hin. subst i'. apply (ci_th_distinct _ _ H t t' i (not_eq_sym Hne)); [now rewrite Ht|exact Hi].
+    + intros t1 t2 i' Hne.
+      destruct (Nat.eq_dec t1 t) as [->|N1]; destruct (Nat.eq_dec t2 t) as [->|N2]; try congruence;
+        rewrite ?set_th_same, ?set_th_other by assumption; try discriminate.
+      now apply (ci_th_distinct _ _ H).
+    + intros t1 t2 Hne.
+      destruct (Nat.eq_dec t1 t) as [->|N1]; destruct (Nat.eq_dec t2 t) as [->|N2]; try congruence;
+        rewrite ?set_th_same, ?set_th_other by assumption; cbn [holds]; try discriminate; auto.
+      now apply (ci_excl _ _ H).
+Qed.
+
+Lemma CI_exec e c : cexec cinit e c -> exists L, CI c L.
+Proof.
+  remember cinit as c0 eqn:E0. induction 1 as [c|c e c1 ev c2 Hex IH St]; subst.
+  - exists []. apply CI_init.
+  - destruct (IH eq_refl) as [L HL]. eapply CI_step; eauto.
+Qed.
+
+(* ------------------------------------------------------------------ linearizations *)
+(* the sequential history (with the model's stream numbers) that an order of calls stands for *)
+Definition conc_op (s : state) (sm : slots) (o : op) : op :=
+  match o with
+  | Next k => Next (match slot_lookup k sm with Some w => w | None => length (watchers s) end)
+  | o => o
+  end.
+Fixpoint concretise (s : state) (sm : slots) (l : list cop) : list op :=
+  match l with
+  | [] => []
+  | c :: l' =>
+      let r := apply_cop s sm (co_inv c) (co_op c) in
+      conc_op s sm (co_op c) :: concretise (fst (fst r)) (snd (fst r)) l'
+  end.
+
+Lemma apply_cop_step s sm i o :
+  step s (conc_op s sm o) = (fst (fst (apply_cop s sm i o)), snd (apply_cop s sm i o)).
+Proof.
+  destruct o as [n v|n|n|n|k]; cbn [conc_op apply_cop fst snd]; try apply surjective_pairing.
+  destruct (slot_lookup k sm) as [w|]; cbn [fst snd]; [apply surjective_pairing|].
+  cbn [step]. replace (nth_error (watchers s) (length (watchers s))) with (@None watcher); [reflexivity|].
+  symmetry. apply nth_error_None. lia.
+Qed.
+
+(* every call returns exactly what the sequential model returns on that history *)
+Definition seq_exact (order : list cop) : Prop :=
+  map snd (trace init (concretise init [] order)) = map co_out order.
+(* ... up to stream numbers (what the harness can compare) *)
+Definition seq_abs_from (s : state) (sm : slots) (order : list cop) : Prop :=
+  map (fun x => out_abs (snd x)) (trace s (concretise s sm order)) = map (fun c => out_abs (co_out c)) order.
+Definition seq_abs (order : list cop) : Prop := seq_abs_from init [] order.
+
+Lemma seq_abs_cons s sm c l :
+  seq_abs_from s sm (c :: l) <->
+  out_abs (snd (apply_cop s sm (co_inv c) (co_op c))) = out_abs (co_out c) /\
+  seq_abs_from (fst (fst (apply_cop s sm (co_inv c) (co_op c)))) (snd (fst (apply_cop s sm (co_inv c) (co_op c)))) l.
+Proof.
+  unfold seq_abs_from. cbn [concretise trace map].
+  rewrite (apply_cop_step s sm (co_inv c) (co_op c)). cbn [fst snd].
+  split; [intros [= A B]; auto | intros [A B]; now rewrite A, B].
+Qed.
+
+(* linearization points: every call takes effect at a moment between its invocation and its
+   return, and the order is the order of those moments *)
+Definition lin_points (order : list cop) (eff : list nat) : Prop :=
+  Forall2 (fun c e => (co_inv c < e)%nat /\ (e < co_ret c)%nat) order eff /\ StronglySorted lt eff.
+(* real-time order, pairwise: nobody is placed before a call that had returned before he was invoked *)
+Fixpoint rt_ok (order : list cop) : Prop :=
+  match order with
+  | [] => True
+  | c :: l => (forall c', In c' (c :: l) -> ~ (co_ret c' < co_inv c)%nat) /\ rt_ok l
+  end.
+
+Lemma lin_points_rt order eff : lin_points order eff -> rt_ok order.
+Proof.
+  intros [F S]. revert S. induction F as [|c e l es [A B] F IH]; intros S; cbn [rt_ok]; [exact I|].
+  apply StronglySorted_inv in S. destruct S as [S1 S2]. split; [|now apply IH].
+  intros c' [<-|Hc']; [lia|]. clear IH S1. induction F as [|c2 e2 l2 es2 [A2 B2] F2 IH2]; [contradiction|].
+  apply Forall_cons_iff in S2. destruct S2 as [S2a S2b].
+  destruct Hc' as [<-|Hc']; [lia|]. now apply IH2.
+Qed.
+
+(* ---- from the invariant to a linearization of the recorded history ---- *)
+Definition ret_of (c : cfg) (i : nat) : nat :=
+  match find (fun h => Nat.eqb (co_inv h) i) (g_hist c) with Some h => co_ret h | None => g_clock c end.
+Definition complete (c : cfg) (x : entry) : cop := mkCop (en_inv x) (ret_of c (en_inv x)) (en_op x) (en_out x).
+
+Lemma find_nodup (l : list cop) h :
+  NoDup (map co_inv l) -> In h l -> find (fun h' => Nat.eqb (co_inv h') (co_inv h)) l = Some h.
+Proof.
+  induction l as [|a l IH]; cbn [map find In]; [contradiction|]. intros N Hi.
+  apply NoDup_cons_iff in N. destruct N as [N1 N2]. destruct Hi as [->|Hi].
+  - now rewrite Nat.eqb_refl.
+  - destruct (Nat.eqb_spec (co_inv a) (co_inv h)) as [E|_]; [|now apply IH].
+    exfalso. apply N1. rewrite E. now apply in_map.
+Qed.
+Lemma find_absent (l : list cop) i :
+  ~ In i (map co_inv l) -> find (fun h' => Nat.eqb (co_inv h') i) l = None.
+Proof.
+  induction l as [|a l IH]; cbn [map find In]; [reflexivity|]. intros N.
+  destruct (Nat.eqb_spec (co_inv a) i) as [E|_]; [exfalso; apply N; now left|]. apply IH. tauto.
+Qed.
+
+Lemma lin_outs_exact c s sm L :
+  lin_outs s sm L ->
+  map snd (trace s (concretise s sm (map (complete c) L))) = map co_out (map (complete c) L) /\
+  fst (lin_run s sm L) = run s (concretise s sm (map (complete c) L)).
+Proof.
+  revert s sm; induction L as [|x L IH]; intros s sm; cbn [lin_outs lin_run map concretise trace].
+  - auto.
+  - intros [A B]. cbn [complete co_inv co_op co_out].
+    rewrite run_cons, (apply_cop_step s sm (en_inv x) (en_op x)). cbn [fst snd].
+    destruct (IH _ _ B) as [I1 I2]. rewrite A. split; [f_equal; exact I1 | exact I2].
+Qed.
+
+Lemma Forall2_map_same {A B C} (f : A -> B) (g : A -> C) (R : B -> C -> Prop) l :
+  (forall x, In x l -> R (f x) (g x)) -> Forall2 R (map f l) (map g l).
+Proof.
+  induction l as [|a l IH]; intros H; cbn [map]; constructor.
+  - apply H. now left.
+  - apply IH. intros x Hx. apply H. now right.
+Qed.
+
+Definition pending_done (c : cfg) (p : cop) : Prop :=
+  exists t, g_th c t = PDone (co_inv p) (co_op p) (co_out p) /\ co_ret p = g_clock c.
+
+(* LINEARIZABILITY.  After any execution of the machine (any number of tasks, any schedule):
+   the calls that have returned, together with some of the calls that have taken effect but
+   not returned yet, can be put in an order such that every call takes effect between its
+   invocation and its return, every call returned what the sequential model [step] returns on
+   that history, and the shared state is the sequential model's state. *)
+Theorem concurrent_linearizable : forall e c, cexec cinit e c ->
+  exists order eff,
+    (forall h, In h (g_hist c) -> In h order) /\
+    (forall p, In p order -> In p (g_hist c) \/ pending_done c p) /\
+    NoDup (map co_inv order) /\
+    seq_exact order /\
+    lin_points order eff /\
+    g_st c = run init (concretise init [] order).
+Proof.
+  intros e c Hex. destruct (CI_exec _ _ Hex) as [L H].
+  exists (map (complete c) L), (map en_eff L).
+  assert (Hret : forall x, In x L ->
+            (In (complete c x) (g_hist c) \/ pending_done c (complete c x)) /\ (en_eff x < ret_of c (en_inv x))%nat).
+  { intros x Hx. destruct (ci_acct _ _ H x Hx) as [(j & A & B)|(t & Ht)].
+    - assert (R : ret_of c (en_inv x) = j).
+      { unfold ret_of. pose proof (find_nodup _ _ (ci_hist_nodup _ _ H) A) as F. cbn [co_inv] in F.
+        now rewrite F. }
+      unfold complete. rewrite R. auto.
+    - assert (R : ret_of c (en_inv x) = g_clock c).
+      { unfold ret_of. rewrite find_absent; [reflexivity|]. apply (ci_th_hist _ _ H t). now rewrite Ht. }
+      split; [right; exists t; cbn [complete co_inv co_op co_out co_ret]; auto|].
+      rewrite R. apply (ci_times _ _ H x Hx). }
+  repeat split.
+  - intros h Hh. destruct (ci_hist _ _ H h Hh) as [_ (e' & A & _)].
+    apply in_map_iff. exists (co_inv h, e', co_op h, co_out h). split; [|exact A].
+    unfold complete, ret_of. cbn [en_inv en_op en_out fst snd].
+    rewrite (find_nodup _ _ (ci_hist_nodup _ _ H) Hh). now destruct h.
+  - intros p Hp. apply in_map_iff in Hp. destruct Hp as (x & <- & Hx). apply (Hret x Hx).
+  - rewrite map_map. cbn [complete co_inv]. apply (ci_nodup _ _ H).
+  - unfold seq_exact. apply (lin_outs_exact c init [] L (ci_outs _ _ H)).
+  - apply Forall2_map_same. intros x Hx. cbn [complete co_inv co_ret].
+    split; [apply (ci_times _ _ H x Hx)|apply (Hret x Hx)].
+  - apply (ci_sorted _ _ H).
+  - destruct (lin_outs_exact c init [] L (ci_outs _ _ H)) as [_ E]. rewrite <- E, (ci_state _ _ H). reflexivity.
+Qed.
+
+(* when every task is idle the recorded history itself is linearizable *)
+Definition linearization (h order : list cop) (eff : list nat) : Prop :=
+  Permutation order h /\ seq_exact order /\ lin_points order eff.
+
+Theorem quiescent_linearizable : forall e c, cexec cinit e c -> (forall t, g_th c t = PIdle) ->
+  exists order eff, linearization (g_hist c) order eff /\ g_st c = run init (concretise init [] order).
+Proof.
+  intros e c Hex Q. destruct (CI_exec _ _ Hex) as [L H].
+  destruct (concurrent_linearizable e c Hex) as (order & eff & A & B & N & X & P & S).
+  exists order, eff. split; [|exact S]. split; [|split; assumption].
+  apply NoDup_Permutation.
+  - eapply NoDup_map_inv. exact N.
+  - eapply NoDup_map_inv. apply (ci_hist_nodup _ _ H).
+  - intros p. split; [|apply A]. intros Hp. destruct (B p Hp) as [|(t & Ht & _)]; [assumption|].
+    rewrite Q in Ht. discriminate.
+Qed.
+
+(* ------------------------------------------------------------------ the check of the harness *)
+Lemma out_eqb_eq a b : out_eqb a b = true <-> a = b.
+Proof.
+  assert (S : forall v u, status_eqb v u = true <-> v = u).
+  { intros v u. unfold status_eqb. rewrite N.eqb_eq. destruct v, u; cbn; split; congruence. }
+  destruct a, b; cbn [out_eqb]; try (split; [discriminate|congruence]); try (split; reflexivity).
+  - rewrite S. split; congruence.
+  - rewrite Nat.eqb_eq. split; congruence.
+  - rewrite S. split; congruence.
+Qed.
+
+Lemma remove_nth_perm {A} (l : list A) i c : nth_error l i = Some c -> Permutation l (c :: remove_nth i l).
+Proof.
+  revert i; induction l as [|a l IH]; intros i; destruct i; cbn [nth_error remove_nth]; try discriminate.
+  - intros [= ->]. apply Permutation_refl.
+  - intros H. eapply perm_trans; [apply perm_skip, IH, H|apply perm_swap].
+Qed.
+Lemma minimal_spec c rem : minimal c rem = true <-> forall c', In c' rem -> ~ (co_ret c' < co_inv c)%nat.
+Proof.
+  unfold minimal. rewrite forallb_forall. split; intros H c' Hc'; specialize (H c' Hc').
+  - rewrite negb_true_iff, Nat.ltb_ge in H. lia.
+  - rewrite negb_true_iff, Nat.ltb_ge. lia.
+Qed.
+
+Lemma first_true_existsb f l : first_true f l = existsb f l.
+Proof. induction l as [|i l IH]; cbn [first_true existsb]; [reflexivity|]. rewrite IH. now destruct (f i). Qed.
+(* the search in the strict form the proofs use *)
+Lemma lin_search_unfold f s sm c0 rem0 :
+  lin_search (S f) s sm (c0 :: rem0) =
+  existsb (fun i =>
+    match nth_error (c0 :: rem0) i with
+    | None => false
+    | Some c =>
+        minimal c (c0 :: rem0) &&
+        (out_eqb (out_abs (snd (apply_cop s sm (co_inv c) (co_op c)))) (out_abs (co_out c)) &&
+         lin_search f (fst (fst (apply_cop s sm (co_inv c) (co_op c)))) (snd (fst (apply_cop s sm (co_inv c) (co_op c))))
+                    (remove_nth i (c0 :: rem0)))
+    end) (seq 0 (length (c0 :: rem0))).
+Proof.
+  cbn [lin_search]. rewrite first_true_existsb. reflexivity.
+Qed.
+
+(* what a successful search has found *)
+Theorem lin_search_sound : forall fuel s sm rem, lin_search fuel s sm rem = true ->
+  exists order, Permutation order rem /\ seq_abs_from s sm order /\ rt_ok order.
+Proof.
+  induction fuel as [|f IH]; intros s sm rem; destruct rem as [|c0 rem0].
+  1, 3: intros _; exists []; repeat split; constructor.
+  1: cbn [lin_search]; discriminate.
+  rewrite lin_search_unfold. set (rem := c0 :: rem0). intros H. apply existsb_exists in H. destruct H as (i & _ & H).
+  destruct (nth_error rem i) as [c|] eqn:E; [|discriminate].
+  apply andb_true_iff in H. destruct H as [M H]. apply andb_true_iff in H. destruct H as [O R].
+  apply out_eqb_eq in O. destruct (IH _ _ _ R) as (order & P & Sq & Rt).
+  pose proof (remove_nth_perm rem i c E) as Pr.
+  exists (c :: order). split; [|split].
+  - eapply perm_trans; [apply perm_skip, P|]. now apply Permutation_sym.
+  - apply seq_abs_cons. auto.
+  - cbn [rt_ok]. split; [|exact Rt]. intros c' Hc'. apply (proj1 (minimal_spec c rem) M).
+    eapply Permutation_in; [apply Permutation_sym, Pr|]. destruct Hc' as [<-|Hc']; [now left|].
+    right. eapply Permutation_in; eauto.
+Qed.
+
+(* the search finds every linearization *)
+Theorem lin_search_complete : forall order s sm rem fuel,
+  Permutation order rem -> (length rem <= fuel)%nat -> seq_abs_from s sm order -> rt_ok order ->
+  lin_search fuel s sm rem = true.
+Proof.
+  induction order as [|c order IH]; intros s sm rem fuel P Lf Sq Rt.
+  - apply Permutation_nil in P. subst rem. destruct fuel; reflexivity.
+  - assert (Hin : In c rem) by (eapply Permutation_in; [exact P|now left]).
+    destruct rem as [|c0 rem0]; [contradiction|]. set (rem := c0 :: rem0) in *.
+    destruct fuel as [|f]; [cbn in Lf; lia|]. unfold rem at 1. rewrite lin_search_unfold. fold rem.
+    destruct (In_nth_error _ _ Hin) as [i Ei].
+    apply existsb_exists. exists i. split.
+    { apply in_seq. split; [lia|]. cbn [plus]. apply nth_error_Some. congruence. }
+    rewrite Ei. apply seq_abs_cons in Sq. destruct Sq as [O Sq]. destruct Rt as [R1 Rt].
+    pose proof (remove_nth_perm rem i c Ei) as Pr.
+    assert (P' : Permutation order (remove_nth i rem)).
+    { eapply Permutation_cons_inv. eapply perm_trans; [exact P|exact Pr]. }
+    apply andb_true_iff. split; [|apply andb_true_iff; split].
+    + apply minimal_spec. intros c' Hc'.
+      eapply Permutation_in in Hc'; [|apply Permutation_sym, P]. now apply R1.
+    + apply out_eqb_eq. exact O.
+    + apply IH; auto. apply Permutation_length in Pr. cbn [length] in Pr. fold rem in Lf. lia.
+Qed.
+
+Lemma seq_exact_abs order : seq_exact order -> seq_abs order.
+Proof.
+  unfold seq_exact, seq_abs, seq_abs_from. intros H.
+  rewrite <- (map_map snd out_abs), H, map_map. reflexivity.
+Qed.
+
+(* every history the machine can record passes the check the harness evaluates *)
+Theorem lin_check_complete : forall e c, cexec cinit e c -> (forall t, g_th c t = PIdle) ->
+  lin_check (g_hist c) = true.
+Proof.
+  intros e c Hex Q. destruct (quiescent_linearizable e c Hex Q) as (order & eff & (P & X & Pt) & _).
+  unfold lin_check. apply (lin_search_complete order); auto.
+  - now apply seq_exact_abs.
+  - eapply lin_points_rt; eauto.
+Qed.
+
+(* ... and a history that passes has a sequential explanation that respects real time *)
+Theorem lin_check_sound : forall h, lin_check h = true ->
+  exists order, Permutation order h /\ seq_abs order /\ rt_ok order.
+Proof. intros h H. exact (lin_search_sound _ _ _ _ H). Qed.
+
+(* a sequential run (one task, one call after the other) is the special case *)
+Lemma lin_check_rejects_example :
+  lin_check [mkCop 0 1 (SetS [97] NotServing) OUnit; mkCop 2 3 (Check [97]) (OStatus Serving)] = false.
+Proof. reflexivity. Qed.
+
+(* no call of any concurrent execution panics (the [expect] in set_service_status) *)
+Theorem concurrent_never_panics : forall e c h, cexec cinit e c -> In h (g_hist c) ->
+  co_out h <> OPanic /\ co_out h <> OFuel.
+Proof.
+  intros e c h Hex Hh. destruct (concurrent_linearizable e c Hex) as (order & eff & A & _ & _ & X & _).
+  apply A in Hh. apply (in_map co_out) in Hh. unfold seq_exact in X. rewrite <- X in Hh.
+  apply in_map_iff in Hh. destruct Hh as (ox & <- & Hox).
+  eapply never_panics_never_out_of_fuel; eauto.
+Qed.
+
+(* ---- non-vacuity: a genuinely interleaved execution of the machine ----
+   task 0 calls set_service_status("a", NotServing), task 1 calls check("a") a moment later and
+   gets its read guard first: the writer has to wait, the check answers NOT_FOUND although the
+   set was invoked before it and returns before it *)
+Lemma cexec_cons c ev c1 e c2 : cstep c ev c1 -> cexec c1 e c2 -> cexec c (ev :: e) c2.
+Proof.
+  intros S X. induction X as [c1|c1 e c3 ev' c4 X IH S'].
+  - change [ev] with ([] ++ [ev]). eapply ce_snoc; [apply ce_nil|exact S].
+  - rewrite app_comm_cons. eapply ce_snoc; [apply IH, S|exact S'].
+Qed.
+Ltac acq_side := let t' := fresh "t" in
+  intros t'; cbn [g_th]; unfold set_th; destruct t' as [|[|[|t']]]; cbn; auto.
+Ltac one_cstep :=
+  first [ eapply cs_inv; reflexivity
+        | eapply cs_acq; [reflexivity|reflexivity|acq_side]
+        | eapply cs_look; reflexivity
+        | eapply cs_act; reflexivity
+        | eapply cs_poll; reflexivity
+        | eapply cs_ret; reflexivity ].
+Definition example_schedule : list event :=
+  [EInv 0 (SetS [97] NotServing); EInv 1 (Check [97]); EAcq 1; ELook 1; EAct 1;
+   EAcq 0; ELook 0; EAct 0; ERet 0; ERet 1].
+Lemma example_execution :
+  exists c, cexec cinit example_schedule c /\ (forall t, g_th c t = PIdle) /\
+            g_hist c = [mkCop 0 8 (SetS [97] NotServing) OUnit; mkCop 1 9 (Check [97]) ONotFound].
+Proof.
+  eexists. split; [|split].
+  - unfold example_schedule, cinit.
+    do 10 (eapply cexec_cons; [one_cstep|cbn]). apply ce_nil.
+  - intros t. cbn [g_th]. unfold set_th. destruct t as [|[|t]]; reflexivity.
+  - reflexivity.
+Qed.
+
+(* the lock of the machine is a lock: a write guard is never held together with another guard *)
+Theorem lock_exclusion : forall e c t1 t2, cexec cinit e c -> t1 <> t2 ->
+  holds (g_th c t1) = Some true -> holds (g_th c t2) = None.
+Proof. intros e c t1 t2 Hex. destruct (CI_exec _ _ Hex) as [L H]. apply (ci_excl _ _ H). Qed.
+
+(* ------------------------------------------------------------------ safety of every concurrent execution *)
+Fixpoint cop_run (s : state) (sm : slots) (l : list cop) : state * slots :=
+  match l with
+  | [] => (s, sm)
+  | c :: l' => let r := apply_cop s sm (co_inv c) (co_op c) in cop_run (fst (fst r)) (snd (fst r)) l'
+  end.
+Lemma concretise_app s sm a b :
+  concretise s sm (a ++ b) = concretise s sm a ++ concretise (fst (cop_run s sm a)) (snd (cop_run s sm a)) b.
+Proof.
+  revert s sm; induction a as [|c a IH]; intros s sm; cbn [app concretise cop_run]; [reflexivity|].
+  now rewrite IH.
+Qed.
+Lemma cop_run_state s sm a : fst (cop_run s sm a) = run s (concretise s sm a).
+Proof.
+  revert s sm; induction a as [|c a IH]; intros s sm; cbn [concretise cop_run]; [reflexivity|].
+  rewrite run_cons, (apply_cop_step s sm (co_inv c) (co_op c)). cbn [fst]. apply IH.
+Qed.
+Lemma concretise_in s sm l o :
+  In o (concretise s sm l) -> is_locked o = true -> exists p, In p l /\ co_op p = o.
+Proof.
+  revert s sm; induction l as [|c l IH]; intros s sm; cbn [concretise In]; [contradiction|].
+  intros [E|Hi] Lo.
+  - exists c. split; [now left|]. destruct (co_op c); cbn [conc_op] in E; try exact E.
+    subst o. discriminate.
+  - destruct (IH _ _ Hi Lo) as (p & A & B). exists p. split; [now right|exact B].
+Qed.
+
+Lemma app_eq_mid {A} (a a' : list A) x x' b b' :
+  length a = length a' -> a ++ x :: b = a' ++ x' :: b' -> x = x'.
+Proof.
+  revert a'; induction a as [|y a IH]; intros [|y' a'] L E; cbn in *; try discriminate.
+  - now injection E.
+  - injection E as _ E. eapply IH; [|exact E]. lia.
+Qed.
+Lemma length_trace s l : length (trace s l) = length l.
+Proof. revert s; induction l; intros s; cbn [trace length]; auto. Qed.
+Lemma length_concretise s sm l : length (concretise s sm l) = length l.
+Proof. revert s sm; induction l; intros s sm; cbn [concretise length]; auto. Qed.
+
+(* what an order gives for one of its calls: the calls placed before it were all invoked before
+   it returned, and it returned what the model returns after them *)
+Lemma order_split order eff h :
+  lin_points order eff -> seq_exact order -> In h order ->
+  exists pre post,
+    order = pre ++ h :: post /\
+    (forall p, In p pre -> (co_inv p < co_ret h)%nat) /\
+    let s1 := cop_run init [] pre in
+    snd (step (run init (concretise init [] pre)) (conc_op (fst s1) (snd s1) (co_op h))) = co_out h.
+Proof.
+  intros [F S] X Hh. apply in_split in Hh. destruct Hh as (pre & post & ->). exists pre, post.
+  split; [reflexivity|]. split.
+  - apply Forall2_app_inv_l in F. destruct F as (e1 & e2' & F1 & F2 & ->).
+    inversion F2 as [|? eh ? e2 [A B] F3]; subst. intros p Hp.
+    assert (Hlt : forall x, In x e1 -> (x < eh)%nat).
+    { clear -S. induction e1 as [|a e1 IH]; [intros ? []|]. cbn [app] in S.
+      apply StronglySorted_inv in S. destruct S as [S1 S2]. intros x [<-|Hx]; [|now apply IH].
+      rewrite Forall_forall in S2. apply S2. apply in_or_app. right. now left. }
+    clear -F1 Hp Hlt B. induction F1 as [|c e l es [C D] F IH]; [contradiction|].
+    destruct Hp as [<-|Hp].
+    + specialize (Hlt e (or_introl eq_refl)). lia.
+    + apply IH; auto. intros x Hx. apply Hlt. now right.
+  - cbn zeta. unfold seq_exact in X. rewrite concretise_app in X. cbn [concretise] in X.
+    rewrite trace_app, !map_app in X. cbn [trace map] in X.
+    rewrite !cop_run_state in X. rewrite !cop_run_state.
+    eapply app_eq_mid; [|exact X].
+    now rewrite !map_length, length_trace, length_concretise.
+Qed.
+
+Lemma spec_fold_origin n v H : forall m,
+  fold_left spec_step H m n = Some v ->
+  m n = Some v \/ exists k : setter, In (SetBy n k) H /\ setter_status k = v.
+Proof.
+  induction H as [|o H IH]; intros m; cbn [fold_left]; [auto|]. intros E.
+  destruct (IH _ E) as [A|(k & A & B)]; [|right; exists k; split; [now right|exact B]].
+  destruct o as [m' k|m'|m'|m'|w]; cbn [spec_step] in A; auto.
+  - destruct (name_eqb_spec n m') as [->|]; [|auto]. right. exists k. split; [now left|congruence].
+  - destruct (name_eqb n m'); [discriminate|auto].
+Qed.
+
+(* a Check never returns a status that nobody has set for that service: it is the default of ""
+   or the status of a set_service_status / set_serving / set_not_serving call on that name that
+   was invoked before the Check returned *)
+Theorem concurrent_check_not_foreign : forall e c h n v, cexec cinit e c -> In h (g_hist c) ->
+  co_op h = Check n -> co_out h = OStatus v ->
+  (n = [] /\ v = Serving) \/
+  exists p k, (In p (g_hist c) \/ pending_done c p) /\ co_op p = SetBy n k /\ setter_status k = v /\
+              (co_inv p < co_ret h)%nat.
+Proof.
+  intros e c h n v Hex Hh Eo Ex.
+  destruct (concurrent_linearizable e c Hex) as (order & eff & A & B & _ & X & P & _).
+  destruct (order_split order eff h P X (A h Hh)) as (pre & post & -> & Rt & Out).
+  cbn zeta in Out. rewrite Eo in Out. cbn [conc_op] in Out. rewrite check_refines_map, Ex in Out.
+  destruct (spec_map (concretise init [] pre) n) as [v'|] eqn:M; [|discriminate].
+  injection Out as ->. unfold spec_map in M. destruct (spec_fold_origin _ _ _ _ M) as [I|(k & I & J)].
+  - left. unfold spec_init in I. destruct (name_eqb_spec n []); [|discriminate]. split; congruence.
+  - right. destruct (concretise_in _ _ _ _ I eq_refl) as (p & Hp & Ep). exists p, k.
+    split; [apply B; apply in_or_app; now left|]. auto.
+Qed.
+
+(* ---- streams: which Watch call a slot stands for ---- *)
+Lemma cop_run_app s sm a b :
+  cop_run s sm (a ++ b) = cop_run (fst (cop_run s sm a)) (snd (cop_run s sm a)) b.
+Proof. revert s sm; induction a as [|c a IH]; intros s sm; cbn [app cop_run]; [reflexivity|]. apply IH. Qed.
+
+Definition slots_ok (pre : list cop) (sm : slots) : Prop :=
+  forall k w, slot_lookup k sm = Some w ->
+    exists pre1 p pre2 n, pre = pre1 ++ p :: pre2 /\ co_inv p = k /\ co_op p = Watch n /\
+      snd (step (run init (concretise init [] pre1)) (Watch n)) = OWatch w.
+
+Lemma slots_ok_run pre : slots_ok pre (snd (cop_run init [] pre)).
+Proof.
+  induction pre as [|c pre IH] using rev_ind; [intros k w; discriminate|].
+  rewrite cop_run_app. cbn [cop_run]. set (s1 := fst (cop_run init [] pre)) in *.
+  set (sm1 := snd (cop_run init [] pre)) in *.
+  assert (Old : forall k w, slot_lookup k sm1 = Some w ->
+            exists pre1 p pre2 n, pre ++ [c] = pre1 ++ p :: pre2 /\ co_inv p = k /\ co_op p = Watch n /\
+              snd (step (run init (concretise init [] pre1)) (Watch n)) = OWatch w).
+  { intros k w H. destruct (IH k w H) as (pre1 & p & pre2 & n & -> & A & B & C).
+    exists pre1, p, (pre2 ++ [c]), n. rewrite <- app_assoc. auto. }
+  intros k w. destruct (co_op c) as [n v|n|n|n|j] eqn:Eo; cbn [apply_cop fst snd].
+  - cbn [step]. destruct (lookup n (svcs s1)); [destruct (Nat.eqb _ 0)|]; cbn [fst snd bind_slot]; apply Old.
+  - cbn [step]. destruct (lookup n (svcs s1)); cbn [fst snd bind_slot]; apply Old.
+  - cbn [step]. destruct (lookup n (svcs s1)); cbn [fst snd bind_slot]; apply Old.
+  - destruct (snd (step s1 (Watch n))) as [| | | |w'| | | | |] eqn:Ew; cbn [bind_slot]; try apply Old.
+    cbn [slot_lookup]. destruct (Nat.eqb_spec k (co_inv c)) as [->|]; [|apply Old].
+    intros [= <-]. exists pre, c, [], n. repeat split; auto.
+    unfold s1 in Ew. now rewrite cop_run_state in Ew.
+  - destruct (slot_lookup j sm1); cbn [fst snd]; apply Old.
+Qed.
+
+(* the poll [h] of the stream named k, placed after [pre]: the Watch call that opened the stream,
+   the sequential history split at it, and the model's stream number *)
+Lemma stream_of_poll pre h k x :
+  co_op h = Next k ->
+  snd (step (run init (concretise init [] pre))
+            (conc_op (fst (cop_run init [] pre)) (snd (cop_run init [] pre)) (co_op h))) = x ->
+  x <> ONoWatcher ->
+  exists pre1 p pre2 n w v0,
+    pre = pre1 ++ p :: pre2 /\ co_inv p = k /\ co_op p = Watch n /\
+    subscribed (concretise init [] pre1) n w v0 /\
+    exists H2, concretise init [] pre = concretise init [] pre1 ++ Watch n :: H2 /\
+               (forall o, In o H2 -> is_locked o = true -> exists q, In q pre2 /\ co_op q = o) /\
+               snd (step (run init (concretise init [] pre1 ++ Watch n :: H2)) (Next w)) = x.
+Proof.
+  intros Eo Out Nx. rewrite Eo in Out. cbn [conc_op] in Out.
+  destruct (slot_lookup k (snd (cop_run init [] pre))) as [w|] eqn:Es.
+  2:{ exfalso. apply Nx. rewrite <- Out, cop_run_state. cbn [step].
+      replace (nth_error _ _) with (@None watcher); [reflexivity|]. symmetry. apply nth_error_None. lia. }
+  destruct (slots_ok_run pre k w Es) as (pre1 & p & pre2 & n & -> & A & B & C).
+  pose proof (watch_refines_map (concretise init [] pre1) n) as Wm. rewrite C in Wm.
+  destruct (spec_map (concretise init [] pre1) n) as [v0|] eqn:M; [|discriminate].
+  exists pre1, p, pre2, n, w, v0. repeat split; auto.
+  rewrite concretise_app. cbn [concretise]. rewrite B. cbn [conc_op].
+  eexists. split; [reflexivity|]. split.
+  - intros o Ho Lo. eapply concretise_in; eauto.
+  - rewrite concretise_app in Out. cbn [concretise] in Out. rewrite B in Out. exact Out.
+Qed.
+
+Definition from_history (c : cfg) (p : cop) : Prop := In p (g_hist c) \/ pending_done c p.
+
+(* a response stream never reports a status that was not set for its service: it is the default
+   of "" or the status of a set call on that name invoked before the poll returned *)
+Theorem concurrent_stream_not_foreign : forall e c h k v, cexec cinit e c -> In h (g_hist c) ->
+  co_op h = Next k -> co_out h = OItem v ->
+  exists wt n, from_history c wt /\ co_inv wt = k /\ co_op wt = Watch n /\
+    ((n = [] /\ v = Serving) \/
+     exists p s, from_history c p /\ co_op p = SetBy n s /\ setter_status s = v /\ (co_inv p < co_ret h)%nat).
+Proof.
+  intros e c h k v Hex Hh Eo Ex.
+  destruct (concurrent_linearizable e c Hex) as (order & eff & A & B & _ & X & P & _).
+  destruct (order_split order eff h P X (A h Hh)) as (pre & post & -> & Rt & Out).
+  cbn zeta in Out.
+  destruct (stream_of_poll pre h k (co_out h) Eo Out) as (pre1 & p & pre2 & n & w & v0 & -> & I & O & Sub & H2 & EH & In2 & Nx).
+  { rewrite Ex. discriminate. }
+  assert (Bp : forall q, In q (pre1 ++ p :: pre2) -> from_history c q).
+  { intros q Hq. apply B. apply in_or_app. now left. }
+  exists p, n. split; [apply Bp, in_or_app; right; now left|]. split; [exact I|]. split; [exact O|].
+  assert (Hrep : In v (reports w (trace init (concretise init [] pre1 ++ Watch n :: H2 ++ [Next w])))).
+  { rewrite app_comm_cons, app_assoc, trace_app, reports_app. apply in_or_app. right.
+    cbn [trace reports flat_map fst snd rep_of].
+    rewrite Nx, Ex, Nat.eqb_refl. now left. }
+  destruct (watch_never_reports_foreign_status _ _ _ _ _ _ Sub Hrep) as [->|(s & Hs & Es)].
+  - destruct Sub as [_ M]. unfold spec_map in M. destruct (spec_fold_origin _ _ _ _ M) as [J|(s & J & K)].
+    + left. unfold spec_init in J. destruct (name_eqb_spec n []); [|discriminate]. split; congruence.
+    + right. destruct (concretise_in _ _ _ _ J eq_refl) as (q & Hq & Eq). exists q, s.
+      assert (In q (pre1 ++ p :: pre2)) by (apply in_or_app; now left). auto.
+  - right. apply in_app_or in Hs. destruct Hs as [Hs|[Hs|[]]]; [|discriminate].
+    destruct (In2 _ Hs eq_refl) as (q & Hq & Eq). exists q, s.
+    assert (In q (pre1 ++ p :: pre2)) by (apply in_or_app; right; now right). auto.
+Qed.
+
+(* a response stream ends only if its service has been cleared by a call invoked before that
+   poll returned *)
+Theorem concurrent_end_only_after_clear : forall e c h k, cexec cinit e c -> In h (g_hist c) ->
+  co_op h = Next k -> co_out h = OEnd ->
+  exists wt n p, from_history c wt /\ co_inv wt = k /\ co_op wt = Watch n /\
+    from_history c p /\ co_op p = Clear n /\ (co_inv p < co_ret h)%nat.
+Proof.
+  intros e c h k Hex Hh Eo Ex.
+  destruct (concurrent_linearizable e c Hex) as (order & eff & A & B & _ & X & P & _).
+  destruct (order_split order eff h P X (A h Hh)) as (pre & post & -> & Rt & Out).
+  cbn zeta in Out.
+  destruct (stream_of_poll pre h k (co_out h) Eo Out) as (pre1 & p & pre2 & n & w & v0 & -> & I & O & Sub & H2 & EH & In2 & Nx).
+  { rewrite Ex. discriminate. }
+  assert (Bp : forall q, In q (pre1 ++ p :: pre2) -> from_history c q).
+  { intros q Hq. apply B. apply in_or_app. now left. }
+  rewrite Ex in Nx. pose proof (end_only_after_clear _ _ _ _ _ Sub Nx) as Cl.
+  unfold cleared in Cl. apply existsb_exists in Cl. destruct Cl as (o & Ho & Io).
+  destruct o as [m s|m|m|m|j]; cbn [is_clear] in Io; try discriminate.
+  destruct (name_eqb_spec m n) as [->|]; [|discriminate].
+  destruct (In2 _ Ho eq_refl) as (q & Hq & Eq).
+  assert (In q (pre1 ++ p :: pre2)) by (apply in_or_app; right; now right).
+  exists p, n, q. repeat split; auto. apply Bp, in_or_app; right; now left.
+Qed.
+
+(* ------------------------------------------------------------------ progress: no deadlock *)
+Lemma cexec_app c e c1 e' c2 : cexec c e c1 -> cexec c1 e' c2 -> cexec c (e ++ e') c2.
+Proof.
+  intros X Y. induction Y as [c1|c1 e' c3 ev c4 Y IH S].
+  - now rewrite app_nil_r.
+  - rewrite app_assoc. eapply ce_snoc; [apply IH, X|exact S].
+Qed.
+Lemma cexec_one c ev c' : cstep c ev c' -> cexec c [ev] c'.
+Proof. intros S. change [ev] with ([] ++ [ev]). eapply ce_snoc; [apply ce_nil|exact S]. Qed.
+
+Definition others_same (t : nat) (c c' : cfg) : Prop := forall t', t' <> t -> g_th c' t' = g_th c t'.
+
+(* a task that has its guard, or has taken effect, runs to its return without anybody's help *)
+Lemma finish_done c t i o x : g_th c t = PDone i o x ->
+  exists e c', cexec c e c' /\ g_th c' t = PIdle /\ others_same t c c'.
+Proof.
+  intros H. eexists. eexists. split; [apply cexec_one; eapply cs_ret; exact H|].
+  cbn [g_th]. split; [apply set_th_same|]. intros t' N. now apply set_th_other.
+Qed.
+Lemma finish_looked c t i o r : g_th c t = PLooked i o r ->
+  exists e c', cexec c e c' /\ g_th c' t = PIdle /\ others_same t c c'.
+Proof.
+  intros H.
+  pose (c1 := mkCfg (fst (locked_act (g_st c) o r)) (bind_slot i (snd (locked_act (g_st c) o r)) (g_slots c))
+                    (set_th (g_th c) t (PDone i o (snd (locked_act (g_st c) o r)))) (S (g_clock c)) (g_hist c)).
+  assert (S1 : cstep c (EAct t) c1) by (apply cs_act; exact H).
+  destruct (finish_done c1 t i o (snd (locked_act (g_st c) o r))) as (e & c' & X & A & B).
+  { unfold c1; cbn [g_th]. apply set_th_same. }
+  exists (EAct t :: e), c'. split; [change (EAct t :: e) with ([EAct t] ++ e); eapply cexec_app; [apply cexec_one, S1|exact X]|].
+  split; [exact A|]. intros t' N. rewrite (B t' N). unfold c1; cbn [g_th]. now apply set_th_other.
+Qed.
+Lemma finish_held c t i o : g_th c t = PHeld i o ->
+  exists e c', cexec c e c' /\ g_th c' t = PIdle /\ others_same t c c'.
+Proof.
+  intros H.
+  pose (c1 := mkCfg (g_st c) (g_slots c) (set_th (g_th c) t (PLooked i o (lookup (op_name o) (svcs (g_st c)))))
+                    (S (g_clock c)) (g_hist c)).
+  assert (S1 : cstep c (ELook t) c1) by (apply cs_look; exact H).
+  destruct (finish_looked c1 t i o (lookup (op_name o) (svcs (g_st c)))) as (e & c' & X & A & B).
+  { unfold c1; cbn [g_th]. apply set_th_same. }
+  exists (ELook t :: e), c'. split; [change (ELook t :: e) with ([ELook t] ++ e); eapply cexec_app; [apply cexec_one, S1|exact X]|].
+  split; [exact A|]. intros t' N. rewrite (B t' N). unfold c1; cbn [g_th]. now apply set_th_other.
+Qed.
+(* a waiting task gets the lock as soon as nobody holds a guard *)
+Lemma finish_wait c t i o : g_th c t = PWait i o -> (forall t', holds (g_th c t') = None) ->
+  exists e c', cexec c e c' /\ g_th c' t = PIdle /\ others_same t c c'.
+Proof.
+  intros H Free. destruct (is_locked o) eqn:Lo.
+  - pose (c1 := mkCfg (g_st c) (g_slots c) (set_th (g_th c) t (PHeld i o)) (S (g_clock c)) (g_hist c)).
+    assert (S1 : cstep c (EAcq t) c1).
+    { apply cs_acq; auto. intros t'. rewrite Free. exact I. }
+    destruct (finish_held c1 t i o) as (e & c' & X & A & B).
+    { unfold c1; cbn [g_th]. apply set_th_same. }
+    exists (EAcq t :: e), c'. split; [change (EAcq t :: e) with ([EAcq t] ++ e); eapply cexec_app; [apply cexec_one, S1|exact X]|].
+    split; [exact A|]. intros t' N. rewrite (B t' N). unfold c1; cbn [g_th]. now apply set_th_other.
+  - destruct o as [n v|n|n|n|k]; try discriminate.
+    pose (c1 := mkCfg (fst (fst (apply_cop (g_st c) (g_slots c) i (Next k)))) (g_slots c)
+             (set_th (g_th c) t (PDone i (Next k) (snd (apply_cop (g_st c) (g_slots c) i (Next k)))))
+             (S (g_clock c)) (g_hist c)).
+    assert (S1 : cstep c (EPoll t) c1) by (apply cs_poll; exact H).
+    destruct (finish_done c1 t i (Next k) (snd (apply_cop (g_st c) (g_slots c) i (Next k)))) as (e & c' & X & A & B).
+    { unfold c1; cbn [g_th]. apply set_th_same. }
+    exists (EPoll t :: e), c'. split; [change (EPoll t :: e) with ([EPoll t] ++ e); eapply cexec_app; [apply cexec_one, S1|exact X]|].
+    split; [exact A|]. intros t' N. rewrite (B t' N). unfold c1; cbn [g_th]. now apply set_th_other.
+Qed.
+
+(* phase 1: everybody who holds a guard or has taken effect returns; the waiting tasks stay *)
+Lemma release_all ts : forall c,
+  exists e c', cexec c e c' /\
+    (forall t, In t ts -> match g_th c' t with PWait _ _ | PIdle => True | _ => False end) /\
+    (forall t, ~ In t ts -> g_th c' t = g_th c t) /\
+    (forall t, match g_th c t with PWait _ _ | PIdle => g_th c' t = g_th c t | _ => True end).
+Proof.
+  induction ts as [|t ts IH]; intros c.
+  - exists [], c. split; [apply ce_nil|]. split; [intros t []|]. split; [reflexivity|].
+    intros t. destruct (g_th c t); auto.
+  - assert (Hone : exists e c1, cexec c e c1 /\ match g_th c1 t with PWait _ _ | PIdle => True | _ => False end /\
+                     others_same t c c1 /\ match g_th c t with PWait _ _ | PIdle => g_th c1 t = g_th c t | _ => True end).
+    { destruct (g_th c t) as [|i o|i o|i o r|i o x] eqn:E.
+      - exists [], c. rewrite E. split; [apply ce_nil|]. split; [exact I|]. split; [intros ? ?; reflexivity|reflexivity].
+      - exists [], c. rewrite E. split; [apply ce_nil|]. split; [exact I|]. split; [intros ? ?; reflexivity|reflexivity].
+      - destruct (finish_held c t i o E) as (e & c1 & X & A & B). exists e, c1. rewrite A. auto.
+      - destruct (finish_looked c t i o r E) as (e & c1 & X & A & B). exists e, c1. rewrite A. auto.
+      - destruct (finish_done c t i o x E) as (e & c1 & X & A & B). exists e, c1. rewrite A. auto. }
+    destruct Hone as (e1 & c1 & X1 & A1 & B1 & D1).
+    destruct (IH c1) as (e2 & c2 & X2 & A2 & B2 & D2).
+    exists (e1 ++ e2), c2. split; [eapply cexec_app; eauto|]. split; [|split].
+    + intros t' [<-|Hi]; [|now apply A2].
+      specialize (D2 t). destruct (g_th c1 t); try contradiction; now rewrite D2.
+    + intros t' N. rewrite B2 by (intros Hi; apply N; now right). apply B1. intros ->. apply N. now left.
+    + intros t'. destruct (Nat.eq_dec t' t) as [->|N].
+      * specialize (D2 t). destruct (g_th c t) eqn:E; auto; rewrite D1 in D2; exact D2.
+      * specialize (D2 t'). rewrite (B1 t' N) in D2. exact D2.
+Qed.
+
+(* phase 2: nobody holds a guard any more; the waiting tasks are served one after the other *)
+Lemma serve_all ts : forall c,
+  (forall t, match g_th c t with PWait _ _ | PIdle => True | _ => False end) ->
+  exists e c', cexec c e c' /\
+    (forall t, In t ts -> g_th c' t = PIdle) /\
+    (forall t, ~ In t ts -> g_th c' t = g_th c t) /\
+    (forall t, g_th c t = PIdle -> g_th c' t = PIdle).
+Proof.
+  induction ts as [|t ts IH]; intros c W.
+  - exists [], c. split; [apply ce_nil|]. split; [intros t []|]. auto.
+  - assert (Free : forall t', holds (g_th c t') = None).
+    { intros t'. specialize (W t'). destruct (g_th c t'); try contradiction; reflexivity. }
+    assert (Hone : exists e c1, cexec c e c1 /\ g_th c1 t = PIdle /\ others_same t c c1).
+    { destruct (g_th c t) as [|i o|i o|i o r|i o x] eqn:E.
+      - exists [], c. split; [apply ce_nil|]. split; [exact E|intros ? ?; reflexivity].
+      - apply (finish_wait c t i o E Free).
+      - specialize (W t). now rewrite E in W.
+      - specialize (W t). now rewrite E in W.
+      - specialize (W t). now rewrite E in W. }
+    destruct Hone as (e1 & c1 & X1 & A1 & B1).
+    assert (W1 : forall t', match g_th c1 t' with PWait _ _ | PIdle => True | _ => False end).
+    { intros t'. destruct (Nat.eq_dec t' t) as [->|N]; [now rewrite A1|]. rewrite (B1 t' N). apply W. }
+    destruct (IH c1 W1) as (e2 & c2 & X2 & A2 & B2 & D2).
+    exists (e1 ++ e2), c2. split; [eapply cexec_app; eauto|]. split; [|split].
+    + intros t' [<-|Hi]; [now apply D2|now apply A2].
+    + intros t' N. rewrite B2 by (intros Hi; apply N; now right). apply B1. intros ->. apply N. now left.
+    + intros t' E. apply D2. destruct (Nat.eq_dec t' t) as [->|N]; [exact A1|]. now rewrite (B1 t' N).
+Qed.
+
+Definition ev_task (ev : event) : nat :=
+  match ev with EInv t _ | EAcq t | ELook t | EAct t | EPoll t | ERet t => t end.
+Lemma cstep_other c ev c' t : cstep c ev c' -> t <> ev_task ev -> g_th c' t = g_th c t.
+Proof. intros S N. destruct S; cbn [ev_task g_th] in *; now apply set_th_other. Qed.
+Lemma idle_outside e c : cexec cinit e c -> forall t, ~ In t (map ev_task e) -> g_th c t = PIdle.
+Proof.
+  remember cinit as c0 eqn:E0. induction 1 as [c|c e c1 ev c2 X IH S]; intros t N; subst.
+  - reflexivity.
+  - rewrite map_app in N. rewrite (cstep_other _ _ _ t S).
+    + apply IH; auto. intros Hi. apply N. apply in_or_app. now left.
+    + intros ->. apply N. apply in_or_app. right. now left.
+Qed.
+Lemma hist_grows c e c' : cexec c e c' -> exists more, g_hist c' = g_hist c ++ more.
+Proof.
+  induction 1 as [c|c e c1 ev c2 X [m IH] S].
+  - exists []. now rewrite app_nil_r.
+  - destruct S; cbn [g_hist]; try (exists m; exact IH).
+    rewrite IH, <- app_assoc. eexists. reflexivity.
+Qed.
+
+(* NO DEADLOCK: from whatever point an execution has reached, every call can run to its return *)
+Theorem can_complete : forall e c, cexec cinit e c ->
+  exists e' c', cexec c e' c' /\ (forall t, g_th c' t = PIdle).
+Proof.
+  intros e c X. set (ts := map ev_task e).
+  destruct (release_all ts c) as (e1 & c1 & X1 & A1 & B1 & D1).
+  assert (W1 : forall t, match g_th c1 t with PWait _ _ | PIdle => True | _ => False end).
+  { intros t. destruct (in_dec Nat.eq_dec t ts) as [Hi|Hn]; [now apply A1|].
+    rewrite (B1 t Hn), (idle_outside e c X t Hn). exact I. }
+  destruct (serve_all ts c1 W1) as (e2 & c2 & X2 & A2 & B2 & D2).
+  exists (e1 ++ e2), c2. split; [eapply cexec_app; eauto|].
+  intros t. destruct (in_dec Nat.eq_dec t ts) as [Hi|Hn]; [now apply A2|].
+  apply D2. rewrite (B1 t Hn). apply (idle_outside e c X t Hn).
+Qed.
+
+(* hence every execution is the beginning of one whose record passes the harness' check *)
+Theorem every_execution_extends_to_checked : forall e c, cexec cinit e c ->
+  exists e' c' more, cexec cinit (e ++ e') c' /\ g_hist c' = g_hist c ++ more /\ lin_check (g_hist c') = true.
+Proof.
+  intros e c X. destruct (can_complete e c X) as (e' & c' & X' & Q).
+  destruct (hist_grows _ _ _ X') as [more Hm].
+  exists e', c', more. split; [eapply cexec_app; eauto|]. split; [exact Hm|].
+  eapply lin_check_complete; [eapply cexec_app; eauto|exact Q].
 Qed.
